@@ -1,7 +1,7 @@
 (* Concrete circuits used by the non-vacuity examples of Properties/C18.v. *)
 Require Import Cirbo.Model.Base Cirbo.Model.Gate Cirbo.Model.Circuit Cirbo.Model.Traverse Cirbo.Model.WF.
 Require Import Cirbo.Model.Passes Cirbo.Model.Eval.
-Require Import Cirbo.Proofs.WFSound.
+Require Import Cirbo.Proofs.WFSound Cirbo.Proofs.EffectMU.
 
 Definition res_to_option {A} (r : res A) : option A := match r with Ok a => Some a | Err _ => None end.
 
@@ -31,3 +31,61 @@ Definition c18_bad : circuit := mkCircuit ["a"; "b"] ["b"] [] [] [].
 Lemma c18_bad_differs :
   apply_transformers c18_bad [TRR false; TRR false] <> apply_linear (linearize [TRR false; TRR false]) c18_bad.
 Proof. vm_compute. discriminate. Qed.
+
+Lemma c18_ex_md :
+  option_map (fun c => gates c) (res_to_option (transform TMD c18_ex)) =
+  Some [("a", mkGate INPUT []); ("b", mkGate INPUT []); ("g2", mkGate AND ["b"; "a"]);
+        ("n1", mkGate NOT ["g2"]); ("n2", mkGate NOT ["n1"]); ("h", mkGate OR ["n2"; "g2"]);
+        ("d", mkGate INPUT [])].
+Proof. vm_compute. reflexivity. Qed.
+
+Ltac gate_cases H :=
+  repeat match type of H with
+         | context [leqb ?x ?y] => destruct (leqb x y)
+         end; try discriminate H; try (injection H as <-).
+
+Lemma c18_ex_arity : arity_ok c18_ex.
+Proof. intros l g H Ht. unfold c18_ex in H; simpl in H. gate_cases H; try reflexivity; exfalso; apply Ht; reflexivity. Qed.
+
+Lemma c18_ex_unary : unary_all_not c18_ex.
+Proof. intros l g H. unfold c18_ex in H; simpl in H. gate_cases H; split; try reflexivity; try discriminate. Qed.
+
+Lemma c18_ex_mu :
+  WF c18_ex /\ arity_ok c18_ex /\ unary_all_not c18_ex /\
+  option_map (fun c => gates c) (res_to_option (transform TMU c18_ex)) =
+  Some [("a", mkGate INPUT []); ("b", mkGate INPUT []); ("g2", mkGate AND ["b"; "a"]);
+        ("g", mkGate AND ["a"; "b"]); ("h", mkGate OR ["g"; "g2"]); ("d", mkGate INPUT [])].
+Proof.
+  split; [exact c18_ex_wf|]. split; [exact c18_ex_arity|]. split; [exact c18_ex_unary|]. vm_compute. reflexivity.
+Qed.
+
+(* a NOT gate with two operands (ill arity) *)
+Definition c18_not2 : circuit :=
+  mkCircuit ["a"; "b"] ["n"]
+    [("a", mkGate INPUT []); ("b", mkGate INPUT []); ("k", mkGate NOT ["b"]); ("n", mkGate NOT ["a"; "k"])]
+    [("b", ["k"]); ("a", ["n"]); ("k", ["n"])] [].
+
+Lemma c18_not2_facts :
+  WF c18_not2 /\ unary_all_not c18_not2 /\
+  option_map (fun c => gates c) (res_to_option (transform TMU c18_not2)) =
+  Some [("b", mkGate INPUT []); ("k", mkGate NOT ["b"]); ("a", mkGate INPUT []); ("n", mkGate NOT ["a"; "k"])].
+Proof.
+  split; [apply wfb_sound; vm_compute; reflexivity|]. split; [|vm_compute; reflexivity].
+  intros l g H. unfold c18_not2 in H; simpl in H. gate_cases H; split; try reflexivity; try discriminate.
+Qed.
+
+(* buffers: f1 = IFF(a), f2 = IFF(f1) (output), g = AND(f2, b), f3 = IFF(g) (output) *)
+Definition c18_iff : circuit :=
+  mkCircuit ["a"; "b"] ["f2"; "f3"]
+    [("a", mkGate INPUT []); ("b", mkGate INPUT []); ("f1", mkGate IFF ["a"]); ("f2", mkGate IFF ["f1"]);
+     ("g", mkGate AND ["f2"; "b"]); ("f3", mkGate IFF ["g"])]
+    [("a", ["f1"]); ("f1", ["f2"]); ("f2", ["g"]); ("b", ["g"]); ("g", ["f3"])] [].
+
+Lemma c18_iff_facts :
+  WF c18_iff /\ no_not_like c18_iff /\
+  option_map (fun c => (outputs c, gates c)) (res_to_option (transform TMU c18_iff)) =
+  Some (["a"; "g"], [("b", mkGate INPUT []); ("a", mkGate INPUT []); ("g", mkGate AND ["a"; "b"])]).
+Proof.
+  split; [apply wfb_sound; vm_compute; reflexivity|]. split; [|vm_compute; reflexivity].
+  intros l g H. unfold c18_iff in H; simpl in H. gate_cases H; reflexivity.
+Qed.
